@@ -15,6 +15,18 @@ CLAIMED = {
         ref="DESIGN.md §6 C03",
         technique="Lean 4 proof (omega/structural) + exhaustive differential correspondence",
     ),
+    "C14": dict(
+        text="Lean 4 theorems (Mathlib ℚ) over the model of hdl21/prefix.py: add/sub/mul/neg/abs/scale return exactly the "
+        "rational result for every mantissa, exponent and prefix pair; comparisons are total, satisfy trichotomy and the usual "
+        "relations, agree with the exact order beyond 1e-20 of the smaller prefix; equal values compare equal and have equal "
+        "(CPython Decimal) hashes; int() truncates. Tied to the code by all 441 prefix pairs x generated mantissa pairs, every "
+        "operator/hash/int/float compared with the model and with fractions.Fraction. float() nearest-float clause: correspondence only.",
+        note="Model = exact Decimal arithmetic (what prefix.py computes inside its _exact context); Decimal.log10-based closest-prefix "
+        "choice is modelled by exact comparison (mismatch tolerated only within 1e-24 of a midpoint, value still checked). "
+        "Lean Float is opaque: float() is checked against float(Fraction) only.",
+        ref="DESIGN.md §6 C14",
+        technique="Lean 4 proof (Mathlib ℚ, zpow, half-even rounding uniqueness) + differential correspondence vs Fraction",
+    ),
 }
 NOT_YET = {}
 
